@@ -37,6 +37,23 @@ Definition rt_response := response N.
 
 Definition rt_init : rt_state := init.
 
+(* uniquely prefixed constructors / accessors for the driver (flat extraction renames clashing
+   record fields and constructors, see CONVENTIONS.md) *)
+Definition rt_mk_cfg (target : N) (k alpha : nat) (ba : list addrport) (bi bd : list N) : tcfg :=
+  mkCfg target k alpha ba bi bd.
+Definition rt_mk_resp (from : option (ninfo * N)) (nodes nodes6 : list ninfo) : rt_response :=
+  mkResp from nodes nodes6.
+Definition rt_started (s : rt_state) : list addrport := map ami_addr (st_started s).
+Definition rt_out (s : rt_state) : nat := st_out s.
+Definition rt_unq_len (s : rt_state) : nat := length (st_unq s).
+Definition rt_stopping (s : rt_state) : bool := st_stopping s.
+Definition rt_stopped (s : rt_state) : bool := st_stopped s.
+(* queries still inside DoQuery: address and whether their ctx is cancelled *)
+Definition rt_ctx (s : rt_state) : list (addrport * bool) :=
+  map (fun q => (ami_addr (q_cand q), q_cancelled q))
+      (filter (fun q => qpc_eqb (q_pc q) QWait) (st_inflight s)).
+Definition rt_closest (s : rt_state) : list kel := st_closest s.
+
 Section Run.
   Variable c : tcfg.
   (* pf = true: the repaired algorithm; false: the pinned one (only used to replay findings) *)
